@@ -414,10 +414,17 @@ Merge(a, b) ==
 (* (the template of a live container, the declared content type of a        *)
 (* reloaded one).  Descriptors carry the templates; reloaded containers     *)
 (* have descriptors reconstructed from the document.                        *)
+(* An OPAQUE child descriptor [k, opaque |-> TRUE, nm |-> ""] stands for "a child of kind k whose structure is *)
+(* not known": all a container reloaded from JSON can say about the declared child of a sparse container that   *)
+(* holds no bin (the document carries only the type name).                                                     *)
+IsOpaque(d) == "opaque" \in DOMAIN d
+Opaque(kind) == [k |-> kind, opaque |-> TRUE, nm |-> "", q |-> "?", fid |-> "", form |-> "none", tr |-> "id"]
+
 RECURSIVE CompatD(_, _)
 CompatD(da, db) ==
   /\ da.k = db.k
-  /\ CASE da.k \in {"Count", "Sum", "Average", "Deviate", "Minimize", "Maximize"} -> TRUE
+  /\ IF IsOpaque(da) \/ IsOpaque(db) THEN TRUE ELSE
+     CASE da.k \in {"Count", "Sum", "Average", "Deviate", "Minimize", "Maximize"} -> TRUE
        [] da.k = "Bag" -> da.range = db.range
        [] da.k = "Bin" -> /\ da.num = db.num /\ da.lo = db.lo /\ da.hi = db.hi
                           /\ CompatD(da.value, db.value) /\ CompatD(da.under, db.under)
@@ -439,6 +446,32 @@ CompatD(da, db) ==
        [] da.k \in {"Index", "Branch"} ->
             /\ Len(da.vals) = Len(db.vals)
             /\ \A i \in DOMAIN da.vals : CompatD(da.vals[i], db.vals[i])
+
+(* ForgetS(d, S): the descriptor a JSON round trip preserves, given the set S of contents found at this    *)
+(* position: everything that the document states (kinds, parameters, names), and below a sparse container *)
+(* only what some existing bin shows - where a sparse container is empty its child becomes opaque.        *)
+RECURSIVE ForgetS(_, _)
+ForgetS(d, S) ==
+  CASE d.k \in LeafKinds -> d
+    [] d.k = "Bin" ->
+         [d EXCEPT !.value = ForgetS(@, UNION {{c.vals[i] : i \in DOMAIN c.vals} : c \in S}),
+                   !.under = ForgetS(@, {c.under : c \in S}), !.over = ForgetS(@, {c.over : c \in S}),
+                   !.nan = ForgetS(@, {c.nan : c \in S})]
+    [] d.k \in {"SparselyBin", "Categorize"} ->
+         LET kids == UNION {{c.bins[key] : key \in DOMAIN c.bins} : c \in S}
+             v == IF \E c \in S : DOMAIN c.bins = {} THEN Opaque(d.value.k) ELSE ForgetS(d.value, kids)
+         IN IF d.k = "Categorize" THEN [d EXCEPT !.value = v]
+            ELSE [d EXCEPT !.value = v, !.nan = ForgetS(@, {c.nan : c \in S})]
+    [] d.k \in SeqBinKinds ->
+         [d EXCEPT !.value = ForgetS(@, UNION {{c.bins[i] : i \in DOMAIN c.bins} : c \in S}),
+                   !.nan = ForgetS(@, {c.nan : c \in S})]
+    [] d.k = "Fraction" -> [d EXCEPT !.value = ForgetS(@, {c.num : c \in S} \cup {c.den : c \in S})]
+    [] d.k = "Select" -> [d EXCEPT !.cut = ForgetS(@, {c.cut : c \in S})]
+    [] d.k \in {"Label", "UntypedLabel"} ->
+         [d EXCEPT !.pairs = [key \in DOMAIN @ |-> ForgetS(@[key], {c.pairs[key] : c \in S})]]
+    [] d.k \in {"Index", "Branch"} ->
+         [d EXCEPT !.vals = [i \in DOMAIN @ |-> ForgetS(@[i], {c.vals[i] : c \in S})]]
+Forget(d, c) == ForgetS(d, {c})
 
 -----------------------------------------------------------------------------
 (* Scale(c, d, f): c * f                                                    *)
